@@ -976,6 +976,9 @@ fn build_sdes_body(sdes: &SourceDescription) -> RtpResult<Vec<u8>> {
     for chunk in &sdes.chunks {
         body.extend_from_slice(&chunk.ssrc.to_be_bytes());
         for item in &chunk.items {
+            if item.ty == 0 {
+                return Err(RtpError::InvalidRtcp("SDES item type 0 is the END marker"));
+            }
             if item.text.len() > u8::MAX as usize {
                 return Err(RtpError::InvalidRtcp("SDES item text too long"));
             }
